@@ -20,8 +20,8 @@ func init() {
 			"R2": "hand list built only from players whose dealt-in flag is set; the scans that build it cover one full circle of seats, skip only unset entries and start as specified in C06.R10",
 			"R3": "eligibility definition",
 			"R4": "has-chips refresh pairing for every bankroll writer",
-			"R5": "waiting flag on seating in both assigners; predicate false for short deck / uninitialised; the waiting arc is exact: short deck → false, wrapping arc → true iff some i in (dealer, bb+N) has i%N == target, else target < bb ∧ target > dealer; asked as arc(dealer seat, bb seat, own seat)",
-			"R6": "rotation rewrites the waiting flag for exactly the occupied, non-eligible seats (only them, and every one of them); re-evaluated with arc(a value stored as the new dealer seat, the value stored as the new BB seat, the seat itself)",
+			"R5": "the waiting flag is written only by the two seat assigners and by the rotation / initial positioning (and helpers only they call); waiting flag on seating in both assigners; predicate false for short deck / uninitialised; the waiting arc is exact: short deck → false, wrapping arc → true iff some i in (dealer, bb+N) has i%N == target, else target < bb ∧ target > dealer; asked as arc(dealer seat, bb seat, own seat)",
+			"R6": "rotation rewrites the waiting flag for exactly the occupied, non-eligible seats (only them, and every one of them), on every rotation of that branch (outer conditions: rule, eligible count, heads-up, an earlier scan — nothing else); re-evaluated with arc(a value stored as the new dealer seat, the value stored as the new BB seat, the seat itself)",
 			"R7": "refusal propagates out of open as the open-failed error; no known-nil error returned (inverted test)",
 			"R8": "seated-in pairing (as C03.R7)",
 			"R9": "seat-manager side of eligibility: UpdatePlayerHasChips writes the given flag to HasChips of the seat found for the id; IsPlayerActive answers Active() of that seat and (false, err) for an unknown id; InitPositions marks initialised only after a successful initialisation and never initialises twice",
@@ -215,6 +215,43 @@ func checkC05(c *Ctx) {
 	checkHasChipsRefresh(c, "R4", lc)
 
 	// ---------------- R5
+	// who may decide that a seated player waits for the button: the two seat assigners (for the seat they hand
+	// out) and the rotation / initial positioning (re-evaluation). Anything else that writes the flag — a
+	// sit-in, a chips refresh — makes a seated-in player with chips wait (or stop waiting) outside the rule.
+	{
+		allowed := map[*ssa.Function]bool{}
+		var roots []*ssa.Function
+		for _, name := range []string{"AssignSeats", "RandomAssignSeats", "RotatePositions", "InitPositions"} {
+			if f := p.Method(smT, name); f != nil {
+				roots = append(roots, f)
+			}
+		}
+		for _, f := range p.CG().Reach(roots, ReachOpts{SyncOnly: true, RepoOnly: true}).Order {
+			allowed[f] = true
+		}
+		nW := 0
+		for _, ss := range p.FieldStores("SeatPlayer", "IsBetweenDealerBB") {
+			if storeIsLocal(ss.Instr) {
+				continue
+			}
+			nW++
+			// reachable from an assigner / the rotation, and from nothing else exported
+			okW := allowed[ss.Fn]
+			isRoot := false
+			for _, r := range roots {
+				isRoot = isRoot || r == ss.Fn
+			}
+			if okW && !isRoot {
+				for _, site := range p.CG().AllCallSitesOf(ss.Fn) {
+					if !allowed[site.Parent()] {
+						okW = false
+					}
+				}
+			}
+			c.Check(okW, "R5", "waiting-flag-writer:"+FuncName(ss.Fn), p.InstrPos(ss.Instr), "written by a seat assigner or the rotation", "the waiting flag is written in "+FuncName(ss.Fn)+", which is not (only) part of seat assignment or of the rotation: a seated-in player with chips can be made to wait — or be released — by another operation")
+		}
+		c.Min("R5", "waiting-flag writers", nW, 4)
+	}
 	for _, name := range []string{"AssignSeats", "RandomAssignSeats"} {
 		f := p.Method(smT, name)
 		if f == nil {
@@ -253,6 +290,24 @@ func checkC05(c *Ctx) {
 								// value: &sp where sp = newSeatPlayer(id)
 								for _, st := range p.Stores([]*ssa.Function{f}) {
 									if st.Addr.Kind == "alloc" && st.Addr.V == ssa.Value(rootAlloc(m.Value)) {
+										nv := st.Val.Strip()
+										if nv.Kind == "call" && len(nv.Args) == 2 && nv.Args[1].Strip().String() == es.Args[1].Strip().String() {
+											idOK = true
+										}
+									}
+								}
+							}
+						}
+						// … or the flag is written straight into the record that was just built for that id
+						// (sp := newSeatPlayer(id); SeatData[seat] = &sp; sp.IsBetweenDealerBB = …)
+						var addrV ssa.Value
+						if stI, isSt := ss.Instr.(*ssa.Store); isSt {
+							addrV = stI.Addr
+						}
+						if fa, isFA := addrV.(*ssa.FieldAddr); isFA && !idOK {
+							if al, isAl := fa.X.(*ssa.Alloc); isAl {
+								for _, st := range p.Stores([]*ssa.Function{f}) {
+									if st.Addr.Kind == "alloc" && st.Addr.V == ssa.Value(al) {
 										nv := st.Val.Strip()
 										if nv.Kind == "call" && len(nv.Args) == 2 && nv.Args[1].Strip().String() == es.Args[1].Strip().String() {
 											idOK = true
@@ -309,54 +364,7 @@ func checkC05(c *Ctx) {
 	checkWrapCounters(c, "R5", func(f *ssa.Function) bool { return inSeatManagerPkg(p, f) }, 2)
 
 	// ---------------- R6
-	rotW := p.Method(smT, "RotatePositions")
-	n6 := 0
-	if rotW != nil {
-		ri := p.CG().Reach([]*ssa.Function{rotW}, ReachOpts{SyncOnly: true, RepoOnly: true})
-		for _, f := range ri.Order {
-			for _, ss := range p.Stores([]*ssa.Function{f}) {
-				if ss.Owner != "SeatPlayer" || ss.Field != "IsBetweenDealerBB" || storeIsLocal(ss.Instr) {
-					continue
-				}
-				n6++
-				gs := p.Guards(ss.Instr)
-				nonAct := guardedBy(gs, false, func(s *Sym) bool { return s.IsCall("SeatPlayer.Active") })
-				occ := nilGuard(gs, false, func(s *Sym) bool { return s.Kind == "rangeval" })
-				c.Check(nonAct && occ, "R6", "rotation-waiting-flag@"+branchOf(p, ss), p.InstrPos(ss.Instr), "only for occupied, non-eligible seats", "the rotation rewrites the waiting flag of an eligible player: a dealt-in player could be made to wait again")
-				// … and for ALL of them: inside the loop over the seats nothing but "occupied" and "not eligible"
-				// conditions the re-evaluation (a further test — has chips, seated in, already waiting — would leave
-				// some non-eligible seat with the flag it had when it was last dealt in)
-				extra := ""
-				var loop map[*ssa.BasicBlock]bool
-				for _, b := range f.Blocks {
-					for _, in := range b.Instrs {
-						if _, isNext := in.(*ssa.Next); isNext && b.Dominates(ss.Instr.Block()) {
-							if l := naturalLoop(b); l[ss.Instr.Block()] {
-								loop = l
-							}
-						}
-					}
-				}
-				for _, g := range gs {
-					if g.If == nil || loop == nil || !loop[g.If.Block()] {
-						continue // a condition of the rotation's branch, outside the loop
-					}
-					cs := g.Cond.Strip()
-					isActive := cs.IsCall("SeatPlayer.Active")
-					isOcc := false
-					if cm := g.AsCmp(); cm != nil && (cm.R.IsNil() || cm.L.IsNil()) {
-						isOcc = true
-					}
-					isLoop := cs.Kind == "extract" && cs.Args[0].Strip().Kind == "next"
-					if !isActive && !isOcc && !isLoop {
-						extra = g.String()
-					}
-				}
-				c.Check(extra == "" && loop != nil, "R6", "rotation-waiting-flag:every-non-eligible-seat@"+branchOf(p, ss), p.InstrPos(ss.Instr), "every occupied, non-eligible seat is re-evaluated", "the rotation re-evaluates the waiting flag only under the further condition "+extra+": some non-eligible seat keeps a stale flag and is dealt in (or kept waiting) wrongly once it becomes eligible again")
-			}
-		}
-	}
-	c.Min("R6", "waiting-flag stores in the rotation", n6, 2)
+	checkRotationWaitingFlags(c, "R6", smT)
 	checkRotationArcArguments(c, "R6")
 
 	// ---------------- R8
@@ -757,4 +765,75 @@ func checkHasChipsRefresh(c *Ctx, rule string, lc *lifecycle) {
 		}
 	}
 
+}
+
+// checkRotationWaitingFlags (C05.R6, shared as C04.R8): the rotation re-evaluates the waiting flag of every occupied,
+// non-eligible seat — only of those, of all of them, and on every rotation of that branch.
+func checkRotationWaitingFlags(c *Ctx, rule string, smT *types.Named) {
+	p := c.P
+	rotW := p.Method(smT, "RotatePositions")
+	n6 := 0
+	if rotW != nil {
+		ri := p.CG().Reach([]*ssa.Function{rotW}, ReachOpts{SyncOnly: true, RepoOnly: true})
+		for _, f := range ri.Order {
+			for _, ss := range p.Stores([]*ssa.Function{f}) {
+				if ss.Owner != "SeatPlayer" || ss.Field != "IsBetweenDealerBB" || storeIsLocal(ss.Instr) {
+					continue
+				}
+				n6++
+				gs := p.Guards(ss.Instr)
+				nonAct := guardedBy(gs, false, func(s *Sym) bool { return s.IsCall("SeatPlayer.Active") })
+				occ := nilGuard(gs, false, func(s *Sym) bool { return s.Kind == "rangeval" })
+				c.Check(nonAct && occ, rule, "rotation-waiting-flag@"+branchOf(p, ss), p.InstrPos(ss.Instr), "only for occupied, non-eligible seats", "the rotation rewrites the waiting flag of an eligible player: a dealt-in player could be made to wait again")
+				// … and for ALL of them: inside the loop over the seats nothing but "occupied" and "not eligible"
+				// conditions the re-evaluation (a further test — has chips, seated in, already waiting — would leave
+				// some non-eligible seat with the flag it had when it was last dealt in)
+				extra, outer := "", ""
+				var loop map[*ssa.BasicBlock]bool
+				for _, b := range f.Blocks {
+					for _, in := range b.Instrs {
+						if _, isNext := in.(*ssa.Next); isNext && b.Dominates(ss.Instr.Block()) {
+							if l := naturalLoop(b); l[ss.Instr.Block()] {
+								loop = l
+							}
+						}
+					}
+				}
+				for _, g := range gs {
+					if g.If == nil || loop == nil || !loop[g.If.Block()] {
+						// a condition of the rotation's branch, outside the loop: which rule, how many eligible players,
+						// heads-up or not, an earlier scan having ended. Anything else — a "nothing changed since last
+						// time" flag, say — skips the re-evaluation although dealer and big blind have moved
+						cs := g.Cond.Strip()
+						okOuter := cs.Kind == "extract" || cs.IsCall("seatManager.IsHU") || cs.IsCall("seatManager.getActivePlayerCount")
+						if cm := g.AsCmp(); cm != nil {
+							l, r := cm.L.Strip(), cm.R.Strip()
+							for _, x := range []*Sym{l, r} {
+								if x.IsField("seatManager", "Rule") || x.IsCall("seatManager.getActivePlayerCount") || x.IsCall("seatManager.IsHU") || x.IsNil() {
+									okOuter = true
+								}
+							}
+						}
+						if !okOuter {
+							outer = g.String()
+						}
+						continue
+					}
+					cs := g.Cond.Strip()
+					isActive := cs.IsCall("SeatPlayer.Active")
+					isOcc := false
+					if cm := g.AsCmp(); cm != nil && (cm.R.IsNil() || cm.L.IsNil()) {
+						isOcc = true
+					}
+					isLoop := cs.Kind == "extract" && cs.Args[0].Strip().Kind == "next"
+					if !isActive && !isOcc && !isLoop {
+						extra = g.String()
+					}
+				}
+				c.Check(outer == "", rule, "rotation-waiting-flag:on-every-rotation@"+branchOf(p, ss), p.InstrPos(ss.Instr), "re-evaluated whenever this branch of the rotation runs", "the rotation re-evaluates the waiting flags only when "+outer+" holds: dealer and big blind move on every rotation, so a player who keeps waiting is never released (or one who should wait is dealt in) after a rotation that skipped it")
+				c.Check(extra == "" && loop != nil, rule, "rotation-waiting-flag:every-non-eligible-seat@"+branchOf(p, ss), p.InstrPos(ss.Instr), "every occupied, non-eligible seat is re-evaluated", "the rotation re-evaluates the waiting flag only under the further condition "+extra+": some non-eligible seat keeps a stale flag and is dealt in (or kept waiting) wrongly once it becomes eligible again")
+			}
+		}
+	}
+	c.Min(rule, "waiting-flag stores in the rotation", n6, 2)
 }
